@@ -587,6 +587,8 @@ class Interp:
     def lv_pair(self, tgt, st):
         """( current value, setter ) of an lvalue expression"""
         while tgt.get('k') == 'cast': tgt = tgt['e']
+        if tgt.get('k') == 'un' and tgt.get('op') == '*' and (tgt.get('e') or {}).get('cn') == '__errno_location':
+            return Val.const(0), (lambda nv: None)          # errno: written before and read after a failed library call only
         if tgt.get('k') == 'ref':
             v = st.env[tgt['d']]
             if isinstance(v, Alias): return self.lv_pair(v.expr, st)
@@ -635,6 +637,8 @@ class Interp:
             else: raise Unmodelled('unary ' + op)
 
     def deref(self, p, e, st):
+        if isinstance(p, Ptr) and p.base == 'errno':
+            yield Val.const(0), st; return
         if isinstance(p, Ptr):
             if p.base == 'cur':
                 self.need(st, p.off, e.get('loc'))
@@ -850,6 +854,8 @@ class Interp:
                     if pid in s2.env and isinstance(s2.env[pid], Rec): self.lv_set(x, s2, s2.env[pid])
                 yield v, s2
             return
+        if cq.startswith('std::') and (e.get('t') or '').replace('const ', '').strip() not in CT and (not (e.get('t') or '').endswith('*') or cn == 'get'):
+            yield Opaque('std'), st; return      # library objects without a value the analyses look at (error categories, paths, ...)
         raise Unmodelled('call of %s at %s' % (cq or cn, e.get('loc')))
 
     def memchr(self, e, b, ch, n, i, st):
@@ -978,7 +984,11 @@ class Interp:
         elif k == 'Decl':
             yield from self.decls(s['decls'], 0, st)
         elif k == 'If':
-            if s.get('init'): raise Unmodelled('if with init statement')
+            if s.get('init'):
+                for kind, v, s1 in self.run(s['init'], st):
+                    if kind != 'fall': yield kind, v, s1
+                    else: yield from self.run(dict(s, init=None), s1)
+                return
             if s.get('var'):
                 for kind, v, s1 in self.decls([s['var']], 0, st):
                     if kind != 'fall': yield kind, v, s1
